@@ -69,7 +69,8 @@ _public_ ssize_t m_mod_unstash(m_mod_t *mod, size_t len) {
     M_ALLOC_ASSERT(unstashed);
 
     m_itr_foreach(mod->stashed, {
-        if (m_idx + 1 == len) {
+        /* m_idx events were already moved */
+        if (m_idx == len) {
             memhook._free(m_itr);
             break;
         }
